@@ -384,6 +384,21 @@ func runInBubble(sc *Scenario) *History {
 				if i < 0 || i >= len(sc.Reqs) || h.Callers[i].Started || h.ShutdownStarted {
 					continue
 				}
+				// The shard's input channel holds runtime.NumCPU() requests. A
+				// caller that blocks on a full channel has not been accepted yet,
+				// and the properties speak about accepted requests: never have
+				// more outstanding calls than the channel can hold.
+				mu.Lock()
+				outstanding := 0
+				for _, oc := range h.Callers {
+					if oc.Started && !oc.Done {
+						outstanding++
+					}
+				}
+				mu.Unlock()
+				if outstanding >= runtime.NumCPU()-1 {
+					continue
+				}
 				c := h.Callers[i]
 				g := group(i)
 				mu.Lock()
